@@ -4,10 +4,21 @@ from verif import *
 import indfam
 
 
+COUNTERS = ["WoodiesCCI", "AwesomeOscillator", "PivotReversalStrategy", "Aroon", "TrendStrengthIndex", "FisherTransform", "Kaufman"]
+
+
 def run(chk):
     quick = chk.tier == "quick"
     yv = build_harness()
     files = indfam.record(chk, yv, "c06", 12 if quick else 48, 36, 90 if quick else 300)
+    # indicators whose signals are driven by internal counters / position indices also run on long-regime streams (rallies and
+    # declines of hundreds of bars: a counter of PeriodType width must not wrap into a second signal)
+    os.environ["YV_LONG_REGIMES"] = "1"
+    try:
+        for name in COUNTERS:
+            files += indfam.record(chk, yv, "c06long", 1 if quick else 3, 2, 1200 if quick else 4000, only=name)
+    finally:
+        os.environ.pop("YV_LONG_REGIMES", None)
     indfam.validate(chk, files, "signals", "signals")
     # known finding: TrendStrengthIndex's signals contradict their documentation (inverted polarity; the second signal is gated by
     # the price window instead of the value).  The module carries both rules; the documented one is validated on a dedicated trace:
